@@ -368,13 +368,13 @@ void Future<void>::Private::FastSignal::set()
 
 void Future<void>::Private::FastSignal::reset()
 {
-  if (Atomic::swap(_state, 0) == 1)
-  {
-    _signal.reset();
-    NSTD_VERIF_YIELD("rd", &_state);
-    if (Atomic::load(_state)) // a set() that completed after the swap above must not lose its wake-up to this reset
-      _signal.set();
-  }
+  // always clear the Signal as well: a set() whose Signal::set() runs after a complete reset() leaves the Signal set
+  // with _state == 0, and a waiter that only looked at the old _state would then spin through wait() without sleeping
+  Atomic::swap(_state, 0);
+  _signal.reset();
+  NSTD_VERIF_YIELD("rd", &_state);
+  if (Atomic::load(_state)) // a set() that completed after the swap above must not lose its wake-up to this reset
+    _signal.set();
 }
 
 bool Future<void>::Private::FastSignal::wait()
